@@ -27,7 +27,7 @@ SHARDS = {'quick': 16, 'thorough': 16}
 NCASES = {'quick': 1600, 'thorough': 50000}
 MIN_NONTRIVIAL = {'quick': 600, 'thorough': 20000}
 TIME_CAP = {'quick': 300, 'thorough': 3600}
-REQUIRED_CLASSES = ['edge:second-stage-assignment'] + ['edge:second-stage:' + w for w in ('mod-other-unit', 'typed-other-unit', 'mod-no-unit', 'other-dtype', 'other-dimension', 'constant')] + ['edge:unit-without-factor', 'edge:nl-temperature', 'edge:nl-level', 'edge:nl-array-1d', 'edge:nl-array-2d', 'edge:nl-scalar',
+REQUIRED_CLASSES = ['edge:second-stage-assignment', 'edge:custom-unit-name-reused-across-parses', 'edge:custom-unit-name:redefined-in-another-dimension', 'edge:second-stage:int-fraction'] + ['edge:second-stage:' + w for w in ('mod-other-unit', 'typed-other-unit', 'mod-no-unit', 'other-dtype', 'other-dimension', 'constant')] + ['edge:unit-without-factor', 'edge:nl-temperature', 'edge:nl-level', 'edge:nl-array-1d', 'edge:nl-array-2d', 'edge:nl-scalar',
                     'edge:nl-array-converted-through-offset-or-logarithm', 'edge:zero-in-other-unit', 'edge:zero-same-dimension', 'edge:zero-offset-temperature', 'edge:zero-other-dimension', 'value-zero', 'value-negative', 'value-positive', 'value-false', 'value-true', 'value-none',
                     'value-empty-string', 'value-string', 'modification-typed', 'modification-untyped',
                     'unit-omitted', 'unit-same-as-definition', 'unit-different-prefix', 'unit-compound', 'unit-custom',
@@ -115,6 +115,8 @@ def cases(rng, tier, shard, nshards, ctx):
             yield dip_edge.gen_c14_nl(rng)
         if i % 6 == 3:
             yield dip_edge.gen_c14_staged(rng)
+            if rng.random() < 0.5:
+                yield dip_edge.gen_c14_unitname(rng)
 
 
 # ---------------------------------------------------------------------------------------------- observation
@@ -205,7 +207,7 @@ def jobs(r):
 def run_case(case, ctx):
     if case.get('edge'):
         from vt.props import dip_edge
-        out = {'c14-nl': dip_edge.run_c14_nl, 'c14-staged': dip_edge.run_c14_staged}.get(case['edge'], dip_edge.run_c14)(case, ctx)
+        out = {'c14-nl': dip_edge.run_c14_nl, 'c14-staged': dip_edge.run_c14_staged, 'c14-unitname': dip_edge.run_c14_unitname}.get(case['edge'], dip_edge.run_c14)(case, ctx)
         if ctx.get('hyg') is not None and ctx['hyg'].check_restore():
             out['monitors']['table_leaks_restored'] = 1
         return out
